@@ -4,9 +4,11 @@ import (
 	"fmt"
 	"go/types"
 	"math"
+	"regexp"
 	"sort"
 	"strconv"
 	"strings"
+	"time"
 	"unicode"
 	"unicode/utf8"
 
@@ -52,6 +54,96 @@ func (m *mach) builtinModel(fn *ssa.Function, args []mv) (mv, bool) {
 	switch {
 	case strings.HasPrefix(name, "strings.Builder."):
 		return m.builderModel(fn.Name(), args)
+	case name == "regexp.MustCompile" || name == "regexp.Compile" || name == "regexp.MustCompilePOSIX" || name == "regexp.CompilePOSIX":
+		// a constant pattern: the host's own regexp package decides whether it compiles (Must* panics if not)
+		if pat, ok := args[0].(string); ok {
+			var re *regexp.Regexp
+			var err error
+			if strings.HasSuffix(name, "POSIX") {
+				re, err = regexp.CompilePOSIX(pat)
+			} else {
+				re, err = regexp.Compile(pat)
+			}
+			must := strings.Contains(name, "Must")
+			if err != nil {
+				if must {
+					m.throw(m.sym("regexp: "+err.Error(), nil), "%s(%q): %s", name, pat, err.Error())
+				}
+				return mTuple{mNil, mIface{t: types.Universe.Lookup("error").Type(), v: &mSym{name: "regexp error", nonNil: true}}}, true
+			}
+			var slot mv = &mRegexp{r: re}
+			if must {
+				return &slot, true
+			}
+			return mTuple{&slot, mNil}, true
+		}
+	case name == "regexp.QuoteMeta":
+		if s0, ok := args[0].(string); ok {
+			return regexp.QuoteMeta(s0), true
+		}
+	case name == "regexp.MatchString":
+		if ss, ok := allStrings(args); ok {
+			b, err := regexp.MatchString(ss[0], ss[1])
+			if err != nil {
+				return mTuple{false, mIface{t: types.Universe.Lookup("error").Type(), v: &mSym{name: "regexp error", nonNil: true}}}, true
+			}
+			return mTuple{b, mNil}, true
+		}
+	case strings.HasPrefix(name, "regexp.Regexp."):
+		if p, ok := args[0].(*mv); ok && p != nil {
+			if rx, ok := (*p).(*mRegexp); ok {
+				switch fn.Name() {
+				case "MatchString":
+					if s0, ok := args[1].(string); ok {
+						return rx.r.MatchString(s0), true
+					}
+				case "FindString":
+					if s0, ok := args[1].(string); ok {
+						return rx.r.FindString(s0), true
+					}
+				case "FindStringIndex":
+					if s0, ok := args[1].(string); ok {
+						loc := rx.r.FindStringIndex(s0)
+						if loc == nil {
+							return mNil, true
+						}
+						return mSlice{[]mv{int64(loc[0]), int64(loc[1])}}, true
+					}
+				case "ReplaceAllString":
+					if ss, ok := allStrings(args[1:]); ok {
+						return rx.r.ReplaceAllString(ss[0], ss[1]), true
+					}
+				case "ReplaceAllLiteralString":
+					if ss, ok := allStrings(args[1:]); ok {
+						return rx.r.ReplaceAllLiteralString(ss[0], ss[1]), true
+					}
+				case "String":
+					return rx.r.String(), true
+				}
+			}
+		}
+	case strings.HasPrefix(name, "time.Duration."):
+		// a duration is its count of nanoseconds: the unit accessors on a constant
+		if d, ok := args[0].(int64); ok {
+			switch fn.Name() {
+			case "Nanoseconds":
+				return d, true
+			case "Microseconds":
+				return d / 1e3, true
+			case "Milliseconds":
+				return d / 1e6, true
+			case "Seconds":
+				return time.Duration(d).Seconds(), true
+			case "Minutes":
+				return time.Duration(d).Minutes(), true
+			case "Hours":
+				return time.Duration(d).Hours(), true
+			case "String":
+				return time.Duration(d).String(), true
+			case "Abs":
+				return int64(time.Duration(d).Abs()), true
+			}
+		}
 	case name == "strings.NewReplacer":
 		var pairs []string
 		switch l := args[0].(type) {
@@ -133,6 +225,48 @@ func (m *mach) builtinModel(fn *ssa.Function, args []mv) (mv, bool) {
 			if s, ok := args[0].(string); ok {
 				r, n := utf8.DecodeLastRuneInString(s)
 				return mTuple{int64(r), int64(n)}, true
+			}
+		case "DecodeRune", "DecodeLastRune", "Valid", "FullRune":
+			if bs, ok := mBytes(args[0]); ok {
+				switch fn.Name() {
+				case "DecodeRune":
+					r, n := utf8.DecodeRune(bs)
+					return mTuple{int64(r), int64(n)}, true
+				case "DecodeLastRune":
+					r, n := utf8.DecodeLastRune(bs)
+					return mTuple{int64(r), int64(n)}, true
+				case "Valid":
+					return utf8.Valid(bs), true
+				default:
+					return utf8.FullRune(bs), true
+				}
+			}
+		case "FullRuneInString":
+			if s, ok := args[0].(string); ok {
+				return utf8.FullRuneInString(s), true
+			}
+		case "RuneStart":
+			if b, ok := args[0].(int64); ok {
+				return utf8.RuneStart(byte(b)), true
+			}
+		case "AppendRune":
+			if r, ok := args[1].(int64); ok {
+				if _, ok := mBytes(args[0]); ok {
+					return mAppendBytes(args[0], utf8.AppendRune(nil, rune(r))), true
+				}
+			}
+		case "EncodeRune":
+			if dst, ok := args[0].(mSlice); ok {
+				if r, ok := args[1].(int64); ok {
+					enc := utf8.AppendRune(nil, rune(r))
+					if len(dst.arr) < len(enc) {
+						m.throw(m.sym("runtime error: index out of range", nil), "utf8.EncodeRune into a slice of %d bytes", len(dst.arr))
+					}
+					for i, b := range enc {
+						dst.arr[i] = int64(b)
+					}
+					return int64(len(enc)), true
+				}
 			}
 		}
 	case strings.HasPrefix(name, "unicode."):
@@ -429,6 +563,27 @@ func (m *mach) stringsModel(name string, args []mv) (mv, bool) {
 				arr = append(arr, p)
 			}
 			return mSlice{arr}, true
+		case "Cut":
+			a, b, found := strings.Cut(ss[0], ss[1])
+			return mTuple{a, b, found}, true
+		case "CutPrefix":
+			a, found := strings.CutPrefix(ss[0], ss[1])
+			return mTuple{a, found}, true
+		case "CutSuffix":
+			a, found := strings.CutSuffix(ss[0], ss[1])
+			return mTuple{a, found}, true
+		case "SplitAfter":
+			var arr []mv
+			for _, p := range strings.SplitAfter(ss[0], ss[1]) {
+				arr = append(arr, p)
+			}
+			return mSlice{arr}, true
+		case "ToTitle":
+			return strings.ToTitle(ss[0]), true
+		case "Clone":
+			return ss[0], true
+		case "ToValidUTF8":
+			return strings.ToValidUTF8(ss[0], ss[1]), true
 		}
 	}
 	switch name {
@@ -509,6 +664,8 @@ func (m *mach) stringsModel(name string, args []mv) (mv, bool) {
 		if s, ok := args[0].(string); ok {
 			if n, ok := args[1].(int64); ok && n >= 0 && n < 1000 {
 				return strings.Repeat(s, int(n)), true
+			} else if ok && n < 0 {
+				m.throw(m.sym("strings: negative Repeat count", nil), "strings.Repeat with the negative count %d", n)
 			}
 		}
 	case "Replace":
@@ -631,3 +788,50 @@ func (m *mach) callValue(f mv, args []mv) mv {
 
 // mReplacer is the content of a *strings.Replacer built from constant pairs.
 type mReplacer struct{ r *strings.Replacer }
+
+// mRegexp is the content of a *regexp.Regexp compiled from a constant pattern.
+type mRegexp struct{ r *regexp.Regexp }
+
+// mBytes: a concrete byte slice value (nil included).
+func mBytes(v mv) ([]byte, bool) {
+	switch x := v.(type) {
+	case mNilT:
+		return nil, true
+	case mSlice:
+		bs := make([]byte, 0, len(x.arr))
+		for _, e := range x.arr {
+			n, ok := e.(int64)
+			if !ok {
+				return nil, false
+			}
+			bs = append(bs, byte(n))
+		}
+		return bs, true
+	}
+	return nil, false
+}
+
+// mAppendBytes: append(dst, add...) on a machine byte slice, growing as the runtime does.
+func mAppendBytes(dst mv, add []byte) mv {
+	var base []mv
+	if sl, ok := dst.(mSlice); ok {
+		base = sl.arr
+	}
+	if len(add) == 0 {
+		if base == nil {
+			return mNil
+		}
+		return mSlice{base}
+	}
+	vals := make([]mv, len(add))
+	for i, b := range add {
+		vals[i] = int64(b)
+	}
+	if len(base)+len(vals) <= cap(base) {
+		return mSlice{append(base, vals...)}
+	}
+	nc := growCap(int64(cap(base)), int64(len(base)+len(vals)), 1)
+	out := make([]mv, len(base), nc)
+	copy(out, base)
+	return mSlice{append(out, vals...)}
+}
